@@ -13,7 +13,7 @@ open VL VL.Appr VL.C10
 /-! ### the two ways a profile is looked at -/
 
 /-- two strictly ascending lists with the same members are equal (a set has one iteration order) -/
-theorem sorted_ext {l₁ l₂ : List Nat} (h₁ : l₁.Pairwise (· < ·)) (h₂ : l₂.Pairwise (· < ·))
+theorem appr_sorted_ext {l₁ l₂ : List Nat} (h₁ : l₁.Pairwise (· < ·)) (h₂ : l₂.Pairwise (· < ·))
     (h : ∀ x, x ∈ l₁ ↔ x ∈ l₂) : l₁ = l₂ := by
   have hn₁ : l₁.Nodup := h₁.imp (fun h => Nat.ne_of_lt h)
   have hn₂ : l₂.Nodup := h₂.imp (fun h => Nat.ne_of_lt h)
@@ -21,7 +21,7 @@ theorem sorted_ext {l₁ l₂ : List Nat} (h₁ : l₁.Pairwise (· < ·)) (h₂
   exact List.Perm.eq_of_pairwise' (r := (· < ·)) h₁ h₂ hp
 
 theorem sortDedup_congr {l₁ l₂ : List Nat} (h : ∀ x, x ∈ l₁ ↔ x ∈ l₂) : sortDedup l₁ = sortDedup l₂ :=
-  sorted_ext (sortDedup_sorted l₁) (sortDedup_sorted l₂) (fun x => by rw [mem_sortDedup, mem_sortDedup, h])
+  appr_sorted_ext (sortDedup_sorted l₁) (sortDedup_sorted l₂) (fun x => by rw [mem_sortDedup, mem_sortDedup, h])
 
 /-- the candidate set of a profile does not depend on the ballot order -/
 theorem allCands_perm {p₁ p₂ : Profile} (h : p₁.Perm p₂) : allCands p₁ = allCands p₂ := by
@@ -35,7 +35,7 @@ theorem reweighted_perm {p₁ p₂ : Profile} (h : p₁.Perm p₂) (elected : Li
     reweighted p₁ elected c = reweighted p₂ elected c := by
   unfold reweighted; exact (h.map _).sum_eq
 
-theorem wf_perm {p₁ p₂ : Profile} (h : p₁.Perm p₂) (hwf : WF p₁) : WF p₂ :=
+theorem appr_wf_perm {p₁ p₂ : Profile} (h : p₁.Perm p₂) (hwf : WF p₁) : WF p₂ :=
   fun bw hbw => hwf bw (h.mem_iff.mpr hbw)
 
 /-! ### SPAV -/
@@ -56,11 +56,11 @@ theorem spavSpecGo_perm {p₁ p₂ : Profile} (h : p₁.Perm p₂) :
     election order, or the refusal) is the SAME for every order of the ballots. -/
 theorem spav_perm {p₁ p₂ : Profile} (h : p₁.Perm p₂) (hwf : WF p₁) (n : Nat) : spav p₁ n = spav p₂ n := by
   have e₁ : spav p₁ n = spavSpecGo p₁ n [] := spavGo_eq_spec hwf n []
-  have e₂ : spav p₂ n = spavSpecGo p₂ n [] := spavGo_eq_spec (wf_perm h hwf) n []
+  have e₂ : spav p₂ n = spavSpecGo p₂ n [] := spavGo_eq_spec (appr_wf_perm h hwf) n []
   rw [e₁, e₂]
   exact spavSpecGo_perm h n []
 
-theorem exceptEquiv_of_eq {α : Type} {R : α → α → Prop} (hR : ∀ a, R a a) {x y : Except Err α} (h : x = y) :
+theorem appr_exceptEquiv_of_eq {α : Type} {R : α → α → Prop} (hR : ∀ a, R a a) {x y : Except Err α} (h : x = y) :
     ExceptEquiv R x y := by
   subst h
   cases x with
@@ -70,7 +70,7 @@ theorem exceptEquiv_of_eq {α : Type} {R : α → α → Prop} (hR : ∀ a, R a 
 /-- the same in the shared vocabulary of C10 -/
 theorem spav_perm_equiv {p₁ p₂ : Profile} (h : p₁.Perm p₂) (hwf : WF p₁) (n : Nat) :
     ExceptEquiv (· = ·) (spav p₁ n) (spav p₂ n) :=
-  exceptEquiv_of_eq (fun _ => rfl) (spav_perm h hwf n)
+  appr_exceptEquiv_of_eq (fun _ => rfl) (spav_perm h hwf n)
 
 example : WF [([0, 1], 5), ([0, 2], 4), ([3], 3)] ∧
     [([0, 1], (5 : Rat)), ([0, 2], 4), ([3], 3)].Perm [([3], 3), ([0, 1], 5), ([0, 2], 4)] := by decide +kernel
@@ -119,7 +119,7 @@ theorem pavStep_eq_spec (coefs : List Rat) (hc : CoefsOK coefs) (votes : Profile
     the committee in its reported order, or the refusal — is the SAME for every order of the ballots. -/
 theorem pavStep_perm {p₁ p₂ : Profile} (h : p₁.Perm p₂) (hwf : WF p₁) (coefs : List Rat) (hc : CoefsOK coefs) (n : Nat) :
     (pavStep coefs p₁ n).1 = (pavStep coefs p₂ n).1 := by
-  rw [pavStep_eq_spec coefs hc p₁ hwf n, pavStep_eq_spec coefs hc p₂ (wf_perm h hwf) n, pavSpec_perm h n]
+  rw [pavStep_eq_spec coefs hc p₁ hwf n, pavStep_eq_spec coefs hc p₂ (appr_wf_perm h hwf) n, pavSpec_perm h n]
   cases pavSpec p₂ n with
   | none => rfl
   | some a => simp only [pavOrder_perm h a]
